@@ -23,7 +23,7 @@ META = {
     "encoded": ["wishbone.bus.Decoder.__init__", "wishbone.bus.Decoder.add", "wishbone.bus.Decoder.align_to",
                 "wishbone.bus.Decoder.elaborate", "wishbone.bus.Interface.memory_map (setter)",
                 "memory.MemoryMap.add_window", "memory.MemoryMap.window_patterns"],
-    "also": 'as C06 plus feature sets given as wishbone.Feature members; address widths 12/20/30',
+    "also": 'as C06 plus feature sets given as wishbone.Feature members; address widths 12/20/30; a single window filling the whole address space (dense and sparse)',
     "bounds": "decoder addr width 2-6 (thorough 2-8), data width 8-64, granularity <= data width, seeded feature "
               "subsets on decoder and subordinates, 0-3 (thorough 0-4) windows: dense between equal data width and "
               "granularity, or sparse; implicit / explicit aligned / align_to placement, alignment 0-3, named/anonymous",
@@ -113,6 +113,18 @@ def configs(tier, seed):
         except ValueError:
             continue
         out.append(cfg)
+    # a single window that fills the decoder's whole address space (no constant address bits left to compare)
+    for aw, dw, gran in ((3, 8, 8), (4, 32, 8), (5, 32, 16), (2, 64, 8), (6, 16, 16)):
+        gbits = _log2(dw // gran)
+        for sub in ({"aw": aw, "dw": dw, "gran": gran, "sparse": False},
+                    {"aw": aw + gbits, "dw": gran, "gran": gran, "sparse": True}):
+            cfg = {"aw": aw, "dw": dw, "gran": gran, "feat": ["err"] if aw % 2 else [], "align": 0, "staged": None, "enum": False,
+                   "refuse_after": None, "subs": [dict(sub, feat=[], named=bool(aw % 2))]}
+            try:
+                _build(cfg)
+            except ValueError:
+                continue
+            out.append(cfg)
     return out
 
 
